@@ -760,7 +760,7 @@ FACETS = {
         "strategy": program_case,
         "check": check_program,
         "minimize": minimize_program,
-        "budget": {"quick": {"examples": 160, "shards": 16}, "thorough": {"examples": 3200, "shards": 16}},
+        "budget": {"quick": {"examples": 160, "shards": 16}, "thorough": {"examples": 12800, "shards": 16}},
         "nontrivial": "a cache deletion between two uses of the same system, or a projection / derived object used again later",
         "min_nontrivial": 40,
     },
@@ -768,7 +768,7 @@ FACETS = {
         "strategy": est_program,
         "check": check_est_program,
         "minimize": lambda case, fails: minimize_program(case, fails, key="steps"),
-        "budget": {"quick": {"examples": 96, "shards": 16}, "thorough": {"examples": 2400, "shards": 16}},
+        "budget": {"quick": {"examples": 96, "shards": 16}, "thorough": {"examples": 6400, "shards": 16}},
         "nontrivial": ">= 2 consecutive estimation steps that differ in tomography, weighting mode, projection order or constraint options",
         "min_nontrivial": 20,
     },
